@@ -279,10 +279,10 @@ PROPS = {
     ),
     "C06": dict(
         level="model_checking",
-        level_text="Locality: unbounded Verus lemmas derived from the proved contracts of the real functions - raw/encrypted records (lemma_framing_local), plaintext records, handshake messages, single extensions (all three dispatchers), DTLS handshake messages and DTLS records: a success on b is the same success on b ++ x with the remainder extended by x, and the outcome class is stable once the declared length is present. Leaf self-delimiting parsers (DH, ECDH, digitally-signed, extension framing, DTLS header, raw record) additionally by Kani relational harnesses on the compiled code (bounded length). Zero-copy/aliasing: every Kani leaf contract states each returned slice as pointer-identical to a sub-range of the input inside the structure's declared length and the remainder as the exact suffix (these conjuncts are the ones run here), so nothing is copied and nothing beyond the declared length is referenced.",
+        level_text="Locality: unbounded Verus lemmas derived from the proved contracts of the real functions - raw/encrypted records (lemma_framing_local), plaintext records, handshake messages, single extensions (all three dispatchers), DTLS handshake messages and DTLS records, and (unit derived) ServerDHParams, ECPoint, ECParameters, ServerECDHParams and both DigitallySigned forms: a success on b is the same success on b ++ x with the remainder extended by x, and the outcome class is stable once the declared length is present. Leaf self-delimiting parsers (DH, ECDH, digitally-signed, extension framing, DTLS header, raw record) additionally by Kani relational harnesses on the compiled code (bounded length). Zero-copy/aliasing: every Kani leaf contract states each returned slice as pointer-identical to a sub-range of the input inside the structure's declared length and the remainder as the exact suffix (these conjuncts are the ones run here), so nothing is copied and nothing beyond the declared length is referenced.",
         level_note="NOT decided: aliasing of TlsRecordsParser results (fast path / nocopy alias the caller's record, defragmented results alias the internal buffer) - Verus slices carry no addresses and CBMC does not finish on the defragmenter (measured); SCT / SCT-list locality beyond the leaf contract (52-byte inputs twice exceed the budget). PskExchangeModes is Vec<u8> by design (exempt). forbid(unsafe_code) (checked by rustc) rules out a borrowed result being a hidden copy with a forged lifetime.",
         technique="contract-based deductive verification: Verus corollary lemmas over proved contracts + Kani relational and pointer-range contract harnesses",
-        verus=["frame", "plaintext", "dispatch_hs", "dispatch_ext", "dtls"],
+        verus=["frame", "plaintext", "dispatch_hs", "dispatch_ext", "dtls", "derived"],
         kani=[dict(quick=["rel_local_raw_record", "rel_local_dh_params", "rel_local_ecdh_params", "rel_local_digitally_signed", "rel_local_ext_unknown", "rel_local_dtls_header",
                           "fd_raw_record_small", "fd_encrypted_small", "leaf_msg_heartbeat", "leaf_msg_appdata", "leaf_hs_certificate", "leaf_hs_certificatestatus", "leaf_ext_sni",
                           "leaf_ext_alpn", "leaf_ext_unknown", "leaf_dh_params", "leaf_ec_parameters", "leaf_digitally_signed", "leaf_sct_entry", "leaf_dtls_hvr", "leaf_dtls_fragment"],
